@@ -833,6 +833,9 @@ func dfClassify(pr *dfPair, m dfMode, obs *dfObserved, bad []string, got, want m
 		case sameNumberOtherKind(got[k], want[k]):
 			// a union with two integer members: the uint_val / int_val of the update does not say which
 			sig = "diff/union-integer-member-not-conveyed"
+		case underWipe && got[k] == "" && want[k] != "":
+			// the leaf is below the container an atomic notification deletes and is not re-sent in it
+			sig = "diff/atomic-container-overreach"
 		case pr.history && underWipe:
 			sig = "diff/atomic-container-overreach"
 		case (zB && !mentioned && !(zA && leafA[k] == want[k])) || (zA && !zB) || (pr.history && (zA || zB)):
@@ -885,6 +888,11 @@ func dfApply(p *reg.Pkg, cur ygot.ValidatedGoStruct, ns []*gpb.Notification, m d
 			nn = append(nn, n)
 		}
 	}
+	if os.Getenv("YDRIVE_DEBUG") != "" {
+		for _, n := range nn {
+			fmt.Fprintln(os.Stderr, "dfApply notification:", n)
+		}
+	}
 	return ytypes.UnmarshalNotifications(sch, nn, opts...)
 }
 
@@ -922,7 +930,8 @@ func dfOracle(sum *Summary, pr *dfPair, m dfMode, ns []*gpb.Notification, obs *d
 						if len(ks) > 6 {
 							ks = ks[:6]
 						}
-						sum.finding(Finding{Signature: sig, What: "applying " + m.String() + "(a,b) to a copy of a does not give b; differing leaves: " + strings.Join(ks, " "), Input: in})
+						sum.finding(Finding{Signature: sig, What: "applying " + m.String() + "(a,b) to a copy of a does not give b; differing leaves: " + strings.Join(ks, " "), Input: in,
+							Observed: map[string]string{"got": got[ks[0]], "want": want[ks[0]]}})
 					}
 				}
 			}
@@ -1289,7 +1298,7 @@ func dfStream(rng *rand.Rand, n int, tier string, out string) (*Summary, error) 
 
 	finish := func() (*Summary, error) {
 		var files []string
-		// the %g table of every float met in the run
+		// the table of KeyValueAsString(float64) for every float met in the run
 		var kft []string
 		bits := make([]uint64, 0, len(floatsSeen))
 		for b := range floatsSeen {
@@ -1297,7 +1306,7 @@ func dfStream(rng *rand.Rand, n int, tier string, out string) (*Summary, error) 
 		}
 		sort.Slice(bits, func(i, j int) bool { return bits[i] < bits[j] })
 		for _, b := range bits {
-			kft = append(kft, fmt.Sprintf("(%d,%s)", b, coqStr(fmt.Sprintf("%g", math.Float64frombits(b)))))
+			kft = append(kft, fmt.Sprintf("(%d,%s)", b, coqStr(keyFloatText(math.Float64frombits(b)))))
 		}
 		for _, name := range st.order {
 			p := reg.Get(name)
